@@ -44,8 +44,10 @@ import (
 	_ "embed"
 	"fmt"
 	"go/ast"
+	"go/format"
 	"go/token"
 	"go/types"
+	"os"
 	"reflect"
 	"sort"
 	"strings"
@@ -76,6 +78,9 @@ type Result struct {
 	Fallback []string // packages analysed as written because the transformed tree did not type-check
 	// CallSites: position of the '(' of every call that was replaced by its callee's body
 	CallSites map[token.Pos]string
+	// DeferSites: position of calls that stand for a deferred call of an expanded helper
+	// (executed at each of its return sites); rules treat them as deferred
+	DeferSites map[token.Pos]bool
 }
 
 const maxCalleeStmts = 200
@@ -162,6 +167,13 @@ func Apply(pkgs []*packages.Package, modPath string, baseline map[string]bool) (
 		files := p.Syntax
 		if st.changed {
 			files = st.files
+		}
+		if st.changed && os.Getenv("GFS3_DEBUG_INLINE") != "" {
+			for _, f := range files {
+				if strings.Contains(p.Fset.Position(f.Pos()).Filename, os.Getenv("GFS3_DEBUG_INLINE")) {
+					format.Node(os.Stderr, token.NewFileSet(), f)
+				}
+			}
 		}
 		tp, info, err := recheck(p, files, rechecked)
 		if err != nil && st.changed && len(st.res.Removed) > 0 {
@@ -513,6 +525,7 @@ func (st *pkgState) eligible(fd *ast.FuncDecl) (bool, string) {
 			}
 		}
 	}
+	topDefer := topLevelDefers(fd)
 	bad := ""
 	n := 0
 	var walk func(node ast.Node, inLit bool)
@@ -525,7 +538,7 @@ func (st *pkgState) eligible(fd *ast.FuncDecl) (bool, string) {
 					return false
 				}
 			case *ast.DeferStmt:
-				if !inLit {
+				if !inLit && !topDefer[y] {
 					bad = "defer"
 				}
 			case *ast.BranchStmt:
@@ -746,4 +759,95 @@ func dropImport(f *ast.File, im *ast.ImportSpec) {
 		}
 	}
 	f.Imports = ims
+}
+
+// topLevelDefers returns the defer statements of fd that the inliner can model:
+// direct children of the body, preceded only by statements that cannot return,
+// deferring a plain call whose function and argument expressions mention only
+// identifiers that the body never assigns (so evaluating them at the return
+// sites gives the same values as at the defer statement). nil if some
+// top-level defer does not qualify.
+func topLevelDefers(fd *ast.FuncDecl) map[*ast.DeferStmt]bool {
+	out := map[*ast.DeferStmt]bool{}
+	if fd.Body == nil {
+		return out
+	}
+	assigned := map[string]bool{}
+	ast.Inspect(fd.Body, func(n ast.Node) bool {
+		switch x := n.(type) {
+		case *ast.AssignStmt:
+			for _, l := range x.Lhs {
+				if id, ok := l.(*ast.Ident); ok {
+					assigned[id.Name] = true
+				}
+			}
+		case *ast.IncDecStmt:
+			if id, ok := x.X.(*ast.Ident); ok {
+				assigned[id.Name] = true
+			}
+		case *ast.UnaryExpr:
+			if x.Op == token.AND {
+				if id, ok := x.X.(*ast.Ident); ok {
+					assigned[id.Name] = true
+				}
+			}
+		case *ast.RangeStmt:
+			for _, e := range []ast.Expr{x.Key, x.Value} {
+				if id, ok := e.(*ast.Ident); ok {
+					assigned[id.Name] = true
+				}
+			}
+		}
+		return true
+	})
+	// named results are assigned by every return
+	if fd.Type.Results != nil {
+		for _, f := range fd.Type.Results.List {
+			for _, nm := range f.Names {
+				assigned[nm.Name] = true
+			}
+		}
+	}
+	mayReturn := false
+	for _, s := range fd.Body.List {
+		if d, ok := s.(*ast.DeferStmt); ok {
+			if mayReturn {
+				return map[*ast.DeferStmt]bool{}
+			}
+			if _, isLit := d.Call.Fun.(*ast.FuncLit); isLit {
+				return map[*ast.DeferStmt]bool{}
+			}
+			okExpr := true
+			ast.Inspect(d.Call, func(n ast.Node) bool {
+				switch x := n.(type) {
+				case *ast.Ident:
+					if assigned[x.Name] {
+						okExpr = false
+					}
+				case *ast.CallExpr:
+					if x != d.Call {
+						okExpr = false // nested calls would be evaluated at defer time
+					}
+				case *ast.FuncLit, *ast.IndexExpr, *ast.StarExpr:
+					okExpr = false
+				}
+				return okExpr
+			})
+			if !okExpr {
+				return map[*ast.DeferStmt]bool{}
+			}
+			out[d] = true
+			continue
+		}
+		ast.Inspect(s, func(n ast.Node) bool {
+			switch n.(type) {
+			case *ast.FuncLit:
+				return false
+			case *ast.ReturnStmt:
+				mayReturn = true
+			}
+			return true
+		})
+	}
+	return out
 }
